@@ -32,19 +32,32 @@ func (m *MetaObject) ActionName(id uint32) (string, error) {
 
 // MethodID returns the ID of a method given its name, the parameters
 // signature and the returned value signature.
+//
+// A map is walked in no particular order: when several methods
+// qualify, the one with the highest id is returned. The answer is
+// always the same and a method of the interface (ids from 100) comes
+// before the method of the generic object (see ObjectMetaObject) with
+// the same name and signature.
 func (m *MetaObject) MethodID(name, signature string) (uint32, string, error) {
+	id, found := uint32(0), false
 	for k, method := range m.Methods {
 		if method.Name == name &&
-			method.ParametersSignature == signature {
-			return k, method.ReturnSignature, nil
+			method.ParametersSignature == signature &&
+			(!found || k > id) {
+			id, found = k, true
 		}
 	}
-	for k, method := range m.Methods {
-		if method.Name == name {
-			return k, method.ReturnSignature, nil
+	if !found {
+		for k, method := range m.Methods {
+			if method.Name == name && (!found || k > id) {
+				id, found = k, true
+			}
 		}
 	}
-	return 0, "", fmt.Errorf("missing method %s", name)
+	if !found {
+		return 0, "", fmt.Errorf("missing method %s", name)
+	}
+	return id, m.Methods[id].ReturnSignature, nil
 }
 
 // SignalID returns the ID of a signal given its name and its
